@@ -17,7 +17,8 @@ RULE = (
     "calls; every object a modifier or build() returns is str()-ed.  ARGUMENT kernel: every string of length <= 3 (quick) / <= 4 (thorough) over the "
     "same alphabet (one further length sampled) plus dot-segment, surrogate and 300-character texts as EACH str argument of build() (scheme, host, authority, "
     "user, password, path, query_string, fragment, query key/value; with host, with authority, without; both encoded modes) and of every modifier, /, % and "
-    "joinpath on 13 receivers (with/without authority, empty, rootless, opaque, encoded=True dot segments).  Anything raised that is not a ValueError or TypeError instance, or a str() failure on "
+    "joinpath on 13 receivers (with/without authority, empty, rootless, opaque, encoded=True dot segments).  CACHE API: cache_configure() with every size in "
+    "{0, 1, 2, None, 128}^3 and odd-typed sizes, each followed by cache_info(), cache_clear() and host-encoding operations.  Anything raised that is not a ValueError or TypeError instance, or a str() failure on "
     "a returned object whose receiver could be rendered, is a violation; a worker dying on a signal is a violation.  Part (b) fault enumeration on a build "
     "of the extension whose PyMem_Malloc/Realloc/Free go through an allocation shim: for output sizes around 8192/16384/24576 and 100 000 x every "
     "quoter configuration, request k = 0,1,2,... of the call is failed until a run completes without injection, and independently "
@@ -52,6 +53,8 @@ def plan(tier, seed):
     for s in range(n):
         jobs.append({"variant": "py" if s % 2 else "c", "part": "args", "shard": s, "nshards": n, "params": {"maxlen": 4 if thorough else 3}})
     jobs.append({"variant": "c", "part": "huge", "params": {}})
+    jobs.append({"variant": "c", "part": "cacheapi", "params": {}})
+    jobs.append({"variant": "py", "part": "cacheapi", "params": {}})
     jobs.append({"variant": "py", "part": "huge", "params": {"small": True}})
     fv = "asan" if thorough else "shim"
     nf = 13
@@ -304,6 +307,48 @@ def run_args(ctx):
     ctx.notes["arg_texts"] = i
 
 
+def run_cacheapi(ctx):
+    """The module-level public entry points: cache_configure() with every documented size (0, small, None, large) per cache, then
+    cache_info(), cache_clear() and host-encoding URL operations while that configuration is active."""
+    import yarl
+    from yarl import URL
+
+    sizes = [0, 1, None, 128, 2]
+    odd = [-1, True, "1", 1.5, b"1", 10**30]
+    k = 0
+    try:
+        for a in sizes:
+            for b in sizes:
+                for c in sizes:
+                    cfg = {"idna_encode_size": a, "idna_decode_size": b, "encode_host_size": c}
+                    steps = [("cache_configure", lambda cfg=cfg: yarl.cache_configure(**cfg)), ("cache_info", yarl.cache_info), ("use", lambda: (URL.build(scheme="http", host=f"bücher{k}.example").host,
+                             URL(f"http://EXÄMPLE{k}.com/").with_host("::1").host_subcomponent, URL("http://[fe80::1%eth0]/").host)), ("cache_info", yarl.cache_info), ("cache_clear", yarl.cache_clear),
+                             ("cache_info", yarl.cache_info), ("use", lambda: URL(f"http://xn--mnchen-3ya{k}.de/").host)]
+                    for tag, fn in steps:
+                        ok, v = call(fn)
+                        k += 1
+                        ctx.ev(("cacheapi", tag, repr((a, b, c)), "ok" if ok else type(v).__name__))
+                        ctx.count("cacheapi_calls")
+                        if not ok and not allowed(v):
+                            ctx.fail("exception_type", {"at": tag, "cache_config": {kk: repr(vv) for kk, vv in cfg.items()}}, f"{tag} under {cfg!r} raised {type(v).__name__}: {v}")
+        for bad in odd:
+            for name in ("idna_encode_size", "idna_decode_size", "encode_host_size"):
+                ok, v = call(lambda: yarl.cache_configure(**{name: bad}))
+                ctx.ev(("cacheapi", "odd-size", name, repr(bad), "ok" if ok else type(v).__name__))
+                if not ok and not allowed(v):
+                    d_ = f"cache_configure({name}={bad!r}) raised {type(v).__name__}: {v}"
+                    ctx.fail("exception_type", {"at": "cache_configure", "arg": name, "value": repr(bad)}, d_, _detail=d_)
+                for tag, fn in (("cache_info", yarl.cache_info), ("cache_clear", yarl.cache_clear), ("use", lambda: URL.build(scheme="http", host="é.example").host)):
+                    ok, v = call(fn)
+                    ctx.count("cacheapi_calls")
+                    if not ok and not allowed(v):
+                        ctx.fail("exception_type", {"at": tag, "after": f"cache_configure({name}={bad!r})"}, f"{tag} raised {type(v).__name__}: {v}")
+                call(yarl.cache_configure)
+    finally:
+        call(yarl.cache_configure)
+    ctx.sample({"at": "cache_info", "cache_config": {"idna_encode_size": "0"}})
+
+
 def run_huge(ctx):
     from yarl import URL
 
@@ -517,7 +562,7 @@ def run(ctx):
             ctx.notes["replay"] = "fault/structured case: " + repr(c)
             ctx.ev(("replay",))
         return
-    {"shapes": run_shapes, "args": run_args, "huge": run_huge, "faults": run_faults}[ctx.part](ctx)
+    {"shapes": run_shapes, "args": run_args, "huge": run_huge, "cacheapi": run_cacheapi, "faults": run_faults}[ctx.part](ctx)
 
 
 def finalize(merged, results, tier):
